@@ -1,7 +1,26 @@
 /-
-  Driver/Schema.lean — `schema chain labels=a,b,c ops=rename:a>A;prefix:p_;proj:p_b,p_A;assign:z;drop:a;suffix:_s`
+  Driver/Schema.lean — schema verbs (C07)
+
+  `schema chain labels=a,b,c ops=rename:a>A;prefix:p_;proj:p_b,p_A;assign:z;drop:a;suffix:_s`
+      labels of a chain of label-level operators (DxModel/Schema.lean)
+
+  `schema decl  t=<tree>`           declared schema (`_meta`) of an expression tree (DxModel/Meta.lean)
+  `schema comp  t=<tree>`           schema of a computed partition
+  `schema guard t=<tree>`           1 / 0
+  `schema push  t=<tree> deps=a,b;c`   declared schema of the tree after the projection push-down of its root
+                                    (NONE when the rule does not fire), `deps`: columns of further dependents
+  `schema kinds f=sum ks=i,f,b`     kind of `df.f()` over columns of these kinds
+
+  A tree is a postfix program, tokens separated by `/`, fields by `|`:
+      src|F(a:i,b:f;~:i)   getcols|a,b   getcol|a   rename|a>A,b>B   renames|n   prefix|p_   suffix|_s   drop|a
+      keep   reset|0   setindex|c|1   index   idx2s   idx2f|~   toframe|~   vc|0   reduce|sum   len
+      gb|k1,k2|*|sum   gb|k|1:c|sum   gb|k|m:a,b|sum   assign|c   merge|inner|k|k|_x|_y   concat|0|0|3
+  a token may end in `@path.batch.depth.nagg.which.emptyLhs` (run-time shape, default all 0).
+  Schemas: `F(cols;levels)`, `S(name:kind;levels)`, `I(levels)`, `C(kind)`, `ERR`; `~` is None / the empty string.
 -/
 import DxModel.Schema
+import DxModel.Meta
+import DxModel.MetaPush
 import Driver.Proto
 open Dx Dx.Proto
 namespace Dx.Drv.Schema
@@ -18,6 +37,160 @@ def parseOp (s : String) : Option Dx.Schema.Op :=
   | ["filter"] => some (.filterRows (fun _ => true))
   | _ => none
 
+open Dx.Meta
+
+/-! ### schemas -/
+
+def kindStr : Kind → String
+  | .int => "i" | .float => "f" | .bool => "b" | .obj => "o" | .dt => "d"
+
+def parseKind : String → Option Kind
+  | "i" => some .int | "f" => some .float | "b" => some .bool | "o" => some .obj | "d" => some .dt
+  | _ => none
+
+def optName (n : Option Name) : String := match n with | some n => n | none => "~"
+def parseOptName (s : String) : Option Name := if s = "~" then none else some s
+
+def colStr (c : Col) : String := c.1 ++ ":" ++ kindStr c.2
+def lvlStr (l : Lvl) : String := optName l.1 ++ ":" ++ kindStr l.2
+
+def renderSch : Sch → String
+  | .frame cols idx => "F(" ++ joinWith "," (cols.map colStr) ++ ";" ++ joinWith "," (idx.map lvlStr) ++ ")"
+  | .series n k idx => "S(" ++ optName n ++ ":" ++ kindStr k ++ ";" ++ joinWith "," (idx.map lvlStr) ++ ")"
+  | .index l => "I(" ++ joinWith "," (l.map lvlStr) ++ ")"
+  | .scalar k => "C(" ++ kindStr k ++ ")"
+  | .bad => "ERR"
+
+def parseCol (s : String) : Option Col :=
+  match s.splitOn ":" with
+  | [n, k] => (parseKind k).map (fun k => (n, k))
+  | _ => none
+
+def parseLvl (s : String) : Option Lvl :=
+  match s.splitOn ":" with
+  | [n, k] => (parseKind k).map (fun k => (parseOptName n, k))
+  | _ => none
+
+def parseList {α : Type} (f : String → Option α) (s : String) : Option (List α) :=
+  if s = "" then some [] else (s.splitOn ",").mapM f
+
+/-- text between the leading `X(` and the trailing `)` -/
+def inner (s : String) : String := String.ofList ((s.toList.drop 2).dropLast)
+
+def parseSch (s : String) : Option Sch :=
+  if s = "ERR" then some .bad
+  else match s.toList.take 2 with
+  | ['F', '('] =>
+    (match (inner s).splitOn ";" with
+     | [cs, ls] => match parseList parseCol cs, parseList parseLvl ls with
+        | some c, some l => some (.frame c l)
+        | _, _ => none
+     | _ => none)
+  | ['S', '('] =>
+    (match (inner s).splitOn ";" with
+     | [nk, ls] => match parseLvl nk, parseList parseLvl ls with
+        | some (n, k), some l => some (.series n k l)
+        | _, _ => none
+     | _ => none)
+  | ['I', '('] => (parseList parseLvl (inner s)).map .index
+  | ['C', '('] => (parseKind (inner s)).map .scalar
+  | _ => none
+
+/-! ### trees -/
+
+def parseAgg : String → Option Agg
+  | "sum" => some .sum | "min" => some .min | "max" => some .max | "count" => some .count | "mean" => some .mean
+  | "any" => some .any | "all" => some .all | "first" => some .first | "last" => some .last | "size" => some .size
+  | _ => none
+
+def parseHow : String → Option How
+  | "inner" => some .inner | "left" => some .left | "right" => some .right | "outer" => some .outer
+  | "leftsemi" => some .leftsemi
+  | _ => none
+
+def parseSlice (s : String) : Option Slice :=
+  if s = "*" then some .all
+  else match s.splitOn ":" with
+  | ["1", c] => some (.one c)
+  | ["m", cs] => some (.many (parseStrs cs))
+  | _ => none
+
+def parseRt (s : String) : Option Rt :=
+  match (s.splitOn ".").mapM String.toNat? with
+  | some [p, b, d, n, w, e] => some { path := p, batch := b, depth := d, nagg := n, which := w, emptyLhs := e != 0 }
+  | _ => none
+
+def parseB (s : String) : Option Bool := match s with | "1" => some true | "0" => some false | _ => none
+
+def tilde (s : String) : String := if s = "~" then "" else s
+
+def parseMap (s : String) : List (Name × Name) :=
+  (parseStrs s).filterMap (fun e => match e.splitOn ">" with | [a, b] => some (a, b) | _ => none)
+
+def parseUOp (fields : List String) : Option UOp :=
+  match fields with
+  | ["getcols", cs] => some (.getCols (parseStrs cs))
+  | ["getcol", c] => some (.getCol c)
+  | ["rename", m] => some (.rename (parseMap m))
+  | ["renames", n] => some (.renameSeries n)
+  | ["prefix", p] => some (.addPrefix p)
+  | ["suffix", p] => some (.addSuffix p)
+  | ["drop", cs] => some (.dropCols (parseStrs cs))
+  | ["keep"] => some .keep
+  | ["reset", d] => (parseB d).map .resetIndex
+  | ["setindex", c, d] => (parseB d).map (.setIndex c)
+  | ["index"] => some .index
+  | ["idx2s"] => some .indexToSeries
+  | ["idx2f", n] => some (.indexToFrame (parseOptName n))
+  | ["toframe", n] => some (.toFrame (parseOptName n))
+  | ["vc", nz] => (parseB nz).map .valueCounts
+  | ["reduce", f] => (parseAgg f).map .reduce
+  | ["len"] => some .len
+  | ["gb", ks, sl, f] =>
+    (match parseSlice sl, parseAgg f with
+     | some sl, some f => some (.gbAgg (parseStrs ks) sl f)
+     | _, _ => none)
+  | _ => none
+
+/-- one step of the stack machine -/
+def step (stack : List Tree) (tok : String) : Option (List Tree) :=
+  let (body, rt) := match tok.splitOn "@" with
+    | [b, r] => (b, parseRt r)
+    | _ => (tok, some {})
+  match rt with
+  | none => none
+  | some rt =>
+    let fields := body.splitOn "|"
+    match fields with
+    | ["src", s] => (parseSch s).map (fun s => .src s :: stack)
+    | ["assign", c] =>
+      (match stack with
+       | v :: t :: rest => some (.assign c t v :: rest)
+       | _ => none)
+    | ["merge", how, lo, ro, ls, rs] =>
+      (match parseHow how, stack with
+       | some h, r :: l :: rest =>
+         some (.merge { how := h, leftOn := parseStrs lo, rightOn := parseStrs ro, ls := tilde ls, rs := tilde rs } rt l r :: rest)
+       | _, _ => none)
+    | ["concat", a, i, n] =>
+      (match parseB a, parseB i, n.toNat? with
+       | some a, some i, some n =>
+         if stack.length < n then none
+         else some (.concat a i rt (stack.take n).reverse :: stack.drop n)
+       | _, _, _ => none)
+    | _ =>
+      (match parseUOp fields, stack with
+       | some op, t :: rest => some (.un op rt t :: rest)
+       | _, _ => none)
+
+def parseTree (s : String) : Option Tree :=
+  match (s.splitOn "/").foldl (fun st tok => st.bind (fun st => step st tok)) (some []) with
+  | some [t] => some t
+  | _ => none
+
+def parseDeps (s : String) : List Dx.Cols.Dep :=
+  if s = "" || s = "-" then [] else (s.splitOn ";").map (fun d => { cols := parseStrs d, ndim1 := false })
+
 def handle : List String → Option String
   | "schema" :: "chain" :: rest =>
     let kv := kvs rest
@@ -27,6 +200,31 @@ def handle : List String → Option String
       | some os => some (joinWith "," (Dx.Schema.schemaChain os (parseStrs ls)))
       | none => some "BAD ops"
     | _, _ => some "BAD params"
+  | "schema" :: "decl" :: rest =>
+    (match (get (kvs rest) "t").bind parseTree with
+     | some t => some (renderSch (declT t))
+     | none => some "BAD tree")
+  | "schema" :: "comp" :: rest =>
+    (match (get (kvs rest) "t").bind parseTree with
+     | some t => some (renderSch (compT t))
+     | none => some "BAD tree")
+  | "schema" :: "guard" :: rest =>
+    (match (get (kvs rest) "t").bind parseTree with
+     | some t => some (bool01 (guardT t))
+     | none => some "BAD tree")
+  | "schema" :: "push" :: rest =>
+    let kv := kvs rest
+    (match (get kv "t").bind parseTree with
+     | some t =>
+       (match pushdown (parseDeps ((get kv "deps").getD "")) t with
+        | some t' => some (renderSch (declT t') ++ " " ++ renderSch (declT t))
+        | none => some "NONE")
+     | none => some "BAD tree")
+  | "schema" :: "kinds" :: rest =>
+    let kv := kvs rest
+    (match (get kv "f").bind parseAgg, (get kv "ks").bind (parseList parseKind) with
+     | some f, some ks => some (match redKind f ks with | some k => kindStr k | none => "ERR")
+     | _, _ => some "BAD params")
   | _ => none
 
 end Dx.Drv.Schema
